@@ -276,6 +276,51 @@ def analyse_on_record(repo):
 _POISONS = True
 
 
+def analyse_on_close(repo):
+    """fmt::Subscriber::on_close / on_new_span: which branch structure decides whether the configured `close` record is written?
+    tree:   if trace_close() { if let Some(timing) = ext.get::<Timings>() { TIMED } else { PLAIN } }           -> gated = False
+    other:  if trace_close() { if fmt_timing { if let Some(timing) = .. { TIMED } } else { PLAIN } }            -> gated = True
+            (a span without the Timings extension gets no close record while timing is on)
+    and on_new_span stores Timings only `if fmt_timing && trace_close() [&& not there yet]` (at span creation).  Anything else: unrecognised."""
+    unrec = []
+    subs = strip_comments(open(os.path.join(repo, FILE)).read())
+    IMPL = r"impl<C, N, E, W> subscribe::Subscribe<C> for Subscriber<C, N, E, W>[^{]*\{"
+    ocb = fn_body_in_impl(subs, IMPL, "on_close") or ""
+    TIMED = (r'let Timings \{ busy, mut idle, last,? \} = \*timing; idle \+= \(Instant::now\(\) - last\)\.as_nanos\(\) as u64; '
+             r'let t_idle = field::display\(TimingDisplay\(idle\)\); let t_busy = field::display\(TimingDisplay\(busy\)\); '
+             r'with_event_from_span!\( id, span, "message" = "close", "time\.busy" = t_busy, "time\.idle" = t_idle, '
+             r'\|event\| \{ drop\(extensions\); drop\(span\); self\.on_event\(&event, ctx\); \} \);')
+    PLAIN = r'with_event_from_span!\(id, span, "message" = "close", \|event\| \{ drop\(extensions\); drop\(span\); self\.on_event\(&event, ctx\); \}\);'
+    HEAD = r'^if self\.fmt_span\.trace_close\(\) \{ let span = ctx\.span\(&id\)\.expect\("[^"]*"\); let extensions = span\.extensions\(\); '
+    IFLET = r'if let Some\(timing\) = extensions\.get::<Timings>\(\) \{ ' + TIMED + r' \}'
+    tree = re.search(HEAD + IFLET + r' else \{ ' + PLAIN + r' \} \}$', ocb)
+    gated = re.search(HEAD + r'if self\.fmt_span\.fmt_timing \{ ' + IFLET + r' \} else \{ ' + PLAIN + r' \} \}$', ocb)
+    if not tree and not gated:
+        unrec.append("on_close is neither `if trace_close() { if let Some(timing) = ext.get::<Timings>() { timed close } else { plain close } }` "
+                     "nor the fmt_timing-gated form: `%s`" % ocb[:160])
+    nsb = fn_body_in_impl(subs, IMPL, "on_new_span") or ""
+    if not re.search(r'if self\.fmt_span\.fmt_timing && self\.fmt_span\.trace_close\(\) (&& extensions\.get_mut::<Timings>\(\)\.is_none\(\) )?'
+                     r'\{ extensions\.insert\(Timings::new\(\)\); \}', nsb) or nsb.count("Timings::new()") != 1:
+        unrec.append("on_new_span does not store Timings exactly `if fmt_timing && trace_close()` (at span creation)")
+    if not re.search(r'if self\.fmt_span\.trace_new\(\) \{ with_event_from_span!\(id, span, "message" = "new", \|event\| \{ drop\(extensions\); drop\(span\); '
+                     r'self\.on_event\(&event, ctx\); \}\); \}$', nsb):
+        unrec.append("on_new_span does not end with `if trace_new() { new record through on_event }`")
+    for nm, other in (("enter", "idle"), ("exit", "busy")):
+        b = fn_body_in_impl(subs, IMPL, "on_" + nm) or ""
+        if not re.search(r'^if self\.fmt_span\.trace_%s\(\) \|\| self\.fmt_span\.trace_close\(\) && self\.fmt_span\.fmt_timing \{' % nm, b) \
+                or not re.search(r'if self\.fmt_span\.trace_%s\(\) \{ with_event_from_span!\(id, span, "message" = "%s", \|event\| \{ drop\(extensions\); '
+                                 r'drop\(span\); self\.on_event\(&event, ctx\); \}\); \} \}$' % (nm, nm), b) or "Timings::new" in b:
+            unrec.append("on_%s is not `if trace_%s() || trace_close() && fmt_timing { update Timings if present; if trace_%s() { %s record } }`" % (nm, nm, nm, nm))
+    sse = None
+    for _, b, _, _ in find_blocks(subs, r"impl<C, N, E, W> Subscriber<C, N, E, W>[^{]*\{"):
+        f = fns_in(b)
+        if "set_span_events" in f and f["set_span_events"][1] is not None:
+            sse = norm(f["set_span_events"][1])
+    if sse is None or not re.search(r'^self\.fmt_span = format::FmtSpanConfig \{ kind, fmt_timing: self\.fmt_span\.fmt_timing,? \}$', sse):
+        unrec.append("set_span_events does not replace exactly the span-event kind (keeping fmt_timing): `%s`" % (sse or "not found")[:120])
+    return bool(gated), unrec
+
+
 def analyse_timer(repo):
     unrec = []
     mods = strip_comments(open(os.path.join(repo, FMOD)).read())
@@ -323,6 +368,8 @@ def main(repo, out):
     both, unrec_w = analyse_writer(repo)
     pretty_fallback, unrec_s = analyse_scope(repo)
     unrec = unrec + unrec_w + unrec_s
+    close_gated, unrec_c = analyse_on_close(repo)
+    unrec = unrec + unrec_c
     lines = [
         "(** GENERATED by translators/fmtbuf.py from %s (fn on_event) -- do not edit. *)" % FILE,
         "From Coq Require Import String List.",
@@ -348,6 +395,9 @@ def main(repo, out):
         "",
         "(** %s: Format<Pretty> looks its span up itself and falls back to the current span for an explicit root. *)" % FPRETTY,
         "Definition pretty_root_falls_back : bool := %s." % ("true" if pretty_fallback else "false"),
+        "",
+        "(** %s on_close: the close record is written only when the span carries Timings while fmt_timing is on (false: always when CLOSE is configured). *)" % FILE,
+        "Definition close_timing_gated : bool := %s." % ("true" if close_gated else "false"),
         "",
         "Definition gen_unrecognised : list string := [%s]." % "; ".join(coq_str(u) for u in unrec),
         "",
